@@ -800,7 +800,25 @@ def r57(orig, rule):
     return 'let %s = %s; let %s = %s.entry(%s).or_default();' % (name, e, v, pth, name)
 
 
+def r58(orig, rule):
+    # let V = E.last().map(|X| X.F).unwrap_or(D);   ->   let V = match E.last() { Some(X) => X.F, None => D };
+    #   (Option::map then unwrap_or: the mapped value when present, the default otherwise)
+    s = norm(orig)
+    m = _m(r'let (%s) = (.+?) \. last \( \) \. map \( \| (%s) \| (.+?) \) \. unwrap_or \( (.+) \) ;' % (ID, ID), s)
+    v, e, x, body, d = m.groups()
+    return 'let %s = match %s.last() { Some(%s) => %s, None => %s };' % (v, e, x, body, d)
+
+
+def r59(orig, rule):
+    # E.get(I).map(|X| B)   (tail expression)   ->   match E.get(I) { Some(X) => Some(B), None => None }      (definition of Option::map)
+    s = norm(orig)
+    m = _m(r'(.+?) \. get \( (.+?) \) \. map \( \| (%s) \| (.+) \)' % ID, s)
+    e, i, x, body = m.groups()
+    return 'match %s.get(%s) { Some(%s) => Some(%s), None => None }' % (e, i, x, body)
+
+
 GENERATORS = {
+    'R58': r58, 'R59': r59,
     'R57': r57,
     'R55': r55, 'R56': r56,
     'R54': r54,
